@@ -16,7 +16,7 @@ for d in sorted(os.listdir(os.path.join(V, 'seeded'))):
     p = os.path.join(V, 'seeded', d)
     if not os.path.isdir(p):
         continue
-    prop = OWN.get(d, d.split('-')[0].rstrip('bc'))
+    prop = OWN.get(d, d.split('-')[0].rstrip('bcd'))
     notes = open(os.path.join(p, 'notes.txt')).read().strip() if os.path.exists(os.path.join(p, 'notes.txt')) else ''
     det = open(os.path.join(p, 'detection.txt')).read().strip() if os.path.exists(os.path.join(p, 'detection.txt')) else ''
     origin = 'reverse patch of the fix: commit for defect %s (the defect as found on the pinned tree)' % d if d in OWN else \
